@@ -51,6 +51,7 @@ import SqlizeModel.Proofs.CrossLoad
 import SqlizeModel.Impl.Api
 import SqlizeModel.Spec.Scope
 import SqlizeModel.Proofs.SpecUnchanged
+import SqlizeModel.Proofs.SchemaIgnoring
 import SqlizeModel.Props.C01
 
 namespace Sqlize.C03
@@ -247,5 +248,22 @@ example : ∃ up down dbO dbN, modelUp {} C01.exOldW C01.exNewW = .ok up ∧ mod
     execAll true [] C01.exOldW = some dbO ∧ execAll true [] C01.exNewW = some dbN ∧
     dbO.equiv dbN = false ∧ (up ++ down).length = 16 ∧ (c03 dbO dbN up down).toOption = some () :=
   ⟨_, _, _, _, by rfl, by rfl, by rfl, by rfl, by decide, by decide, by decide⟩
+
+/-- the same for either setting of the ignore-field-order option -/
+theorem schema_on_reference_engine_either_setting (g : Globals) (hg : g.dialect = .mysql) (rc : Bool)
+    (old new : List Stmt) (dbO dbN : DB) (ho : old.all Stmt.elemSafe = true) (hn : new.all Stmt.elemSafe = true)
+    (hpo : old.all Stmt.plainOpts = true) (hpn : new.all Stmt.plainOpts = true)
+    (heo : execAll rc [] old = some dbO) (hen : execAll rc [] new = some dbN)
+    (hdef : ∀ tb ∈ dbO ++ dbN, tb.name ≠ Migration.defaultMigrationTable)
+    (hnofk : ∀ tb ∈ dbO ++ dbN, tb.fks = [])
+    (hncm : ∀ tb ∈ dbO ++ dbN, ∀ c ∈ tb.cols, ∀ k ∈ c.opts, k.noComment = true)
+    (hboth : ∀ tbO ∈ dbO, ∀ tbN ∈ dbN, tbO.name = tbN.name →
+      Abs.OrderCompatible tbN.colNames tbO.colNames ∧ (∀ n ∈ tbN.colNames ++ tbO.colNames, n ≠ "") ∧ tbO.pk = tbN.pk ∧
+      (∀ dc : List String, (∀ c ∈ dc, c ∉ tbN.colNames) →
+        ∀ s ∈ tbN.idxs, ∀ o ∈ tbO.idxs, o.name = s.name → o ≠ s → ∃ c ∈ o.cols, c ∉ dc) ∧
+      (∀ dc : List String, (∀ c ∈ dc, c ∉ tbO.colNames) →
+        ∀ s ∈ tbN.idxs, ∀ o ∈ tbO.idxs, o.name = s.name → o ≠ s → ∃ c ∈ s.cols, c ∉ dc)) :
+    ∃ up down, modelUp g old new = .ok up ∧ modelDown g old new = .ok down ∧ c03 dbO dbN up down = .ok () :=
+  schema_c03_any g hg rc old new dbO dbN ho hn hpo hpn heo hen hdef hnofk hncm hboth
 
 end Sqlize.C03
